@@ -12,6 +12,7 @@ State: locals, heap (oid -> (cls, {field: value})), pc (list of z3 Bool), ghost 
 """
 from __future__ import annotations
 import ast, itertools, time
+import copy as _copy
 from dataclasses import dataclass, field
 import z3
 
@@ -84,7 +85,11 @@ class SList:
     def __init__(s, arr, n): s.arr = arr; s.n = n
 class GhostList:
     """a result list whose elements are checked when they are appended (Engine.list_append_hook) and not tracked afterwards"""
-    def __init__(s, name): s.name = name
+    def __init__(s, name, nonempty=None): s.name = name; s.nonempty = nonempty if nonempty is not None else fresh(name + "_nonempty", z3.BoolSort())
+class SStrList:
+    """list of strings of symbolic length (str.split / str.splitlines results): element k is arr[k]"""
+    def __init__(s, arr, n): s.arr = arr; s.n = n
+STR_ARR = z3.ArraySort(z3.IntSort(), z3.StringSort())
 @dataclass(frozen=True)
 class Ref:
     oid: int
@@ -99,7 +104,7 @@ _fresh = itertools.count()
 def fresh(prefix, sort):
     return z3.Const(f"{prefix}__{next(_fresh)}", sort)
 
-def is_sym(v): return isinstance(v, (SInt, SBV, SBool, SBytes, SOpt, SStr, SList, SFloat))
+def is_sym(v): return isinstance(v, (SInt, SBV, SBool, SBytes, SOpt, SStr, SList, SFloat, SStrList))
 
 _CUR = {"ctx": None, "st": None, "node": None}
 def to_int(v):
@@ -134,7 +139,8 @@ def to_bool(v):
     if isinstance(v, SBV): return v.e != 0
     if isinstance(v, SBytes): return v.n != 0
     if isinstance(v, SStr): return z3.Length(v.e) != 0
-    if isinstance(v, SList): return v.n != 0
+    if isinstance(v, (SList, SStrList)): return v.n != 0
+    if isinstance(v, GhostList): return v.nonempty
     if isinstance(v, SOpt): return z3.And(z3.Not(v.isnone), v.val != 0)
     if isinstance(v, Ref): return z3.BoolVal(True)
     if isinstance(v, (list, tuple, str, bytes, dict)): return z3.BoolVal(len(v) != 0)
@@ -155,7 +161,7 @@ class State:
     def __init__(s):
         s.locals = {}; s.heap = {}; s.pc = []; s.ghost = {}
     def fork(s):
-        cp = lambda v: list(v) if type(v) is list else dict(v) if type(v) is dict else v      # plain mutable containers are per path (parse trees are immutable values)
+        cp = lambda v: list(v) if type(v) is list else dict(v) if type(v) is dict else _copy.copy(v) if type(v) is GhostList else v      # plain mutable containers are per path (parse trees are immutable values)
         t = State(); t.locals = {k: cp(v) for k, v in s.locals.items()}; t.pc = list(s.pc); t.ghost = {k: cp(v) for k, v in s.ghost.items()}
         t.heap = {k: (c, {fk: cp(fv) for fk, fv in f.items()}) for k, (c, f) in s.heap.items()}
         return t
@@ -184,6 +190,7 @@ def _light(e):
         seen.add(x.get_id())
         if z3.is_quantifier(x): quant = True; break
         if z3.is_app(x):
+            if z3.is_seq(x) or z3.is_re(x): quant = True; break       # string constraints are left out as well (slow in feasibility checks; dropping is sound)
             d = x.decl()
             if d.kind() == z3.Z3_OP_RECURSIVE: recs[d.name()] = d
             stack.extend(x.children())
@@ -421,7 +428,7 @@ class Engine:
             raise Unsupported(f"module attr {q}")
         if isinstance(base, tuple) and base and base[0] in ("pymodule", "pyattr"):
             return [(st, ("pyattr", base[1] + "." + attr))]
-        if isinstance(base, (SBytes, SStr, list, str, SList, dict, GhostList)):
+        if isinstance(base, (SBytes, SStr, list, str, SList, dict, GhostList, SStrList)):
             return [(st, ("bmeth", base, attr, node))]
         hook = getattr(s, "getattr_hook", None)
         if hook is not None:
@@ -674,6 +681,9 @@ class Engine:
                 for st1, r in s.implicit_failure(st, ctx, "safe:key", idx in base, "KeyError", node):
                     res.append((st1, r if r is not None else base[idx]))
                 return res
+            hook = getattr(s, "index_hook", None)
+            r = hook(st, base, idx, ctx, node) if hook is not None else None
+            if r is not None: return r
             raise Unsupported("symbolic dict key")
         if isinstance(base, list) and is_sym(idx):
             if all(isinstance(x, int) and not isinstance(x, bool) for x in base) and isinstance(idx, SBV):
@@ -707,6 +717,11 @@ class Engine:
                     neg = st1.fork(); neg.pc.append(i < 0)      # negative indices count from the end; skip the case split when the path excludes them
                     i2 = z3.If(i < 0, i + n, i) if s.feasible(neg) else i
                 res.append((st1, SBV(base.at(i2))))
+            return res
+        if isinstance(base, SStrList):
+            i = to_int(idx); res = []
+            for st1, r in s.implicit_failure(st, ctx, "safe:index", z3.And(i >= -base.n, i < base.n), "IndexError", node):
+                res.append((st1, r if r is not None else SStr(z3.Select(base.arr, z3.If(i < 0, i + base.n, i)))))
             return res
         if isinstance(base, SStr):
             i = to_int(idx); n = z3.Length(base.e); res = []
@@ -804,7 +819,7 @@ class Engine:
             v = args[0]
             if isinstance(v, SBytes): return [(st, SInt(v.n))]
             if isinstance(v, SStr): return [(st, SInt(z3.Length(v.e)))]
-            if isinstance(v, SList): return [(st, SInt(v.n))]
+            if isinstance(v, (SList, SStrList)): return [(st, SInt(v.n))]
             if isinstance(v, (list, tuple, str, bytes, dict)): return [(st, len(v))]
             if hasattr(v, "py_len"): return [(st, v.py_len())]
             if isinstance(v, Ref):
@@ -895,6 +910,7 @@ class Engine:
             hook = getattr(s, "list_append_hook", None)
             if hook is not None: hook(st, base, args[0], ctx, node)
             if isinstance(base, list): base.append(args[0])
+            else: base.nonempty = z3.BoolVal(True)
             return [(st, None)]
         if isinstance(base, str) and attr == "join" and len(args) == 1 and isinstance(args[0], (list, tuple)):
             items = [s.format_value(x) if not isinstance(x, (str, SStr)) else x for x in args[0]]
@@ -911,6 +927,22 @@ class Engine:
             except TypeError: raise Unsupported("dict.get key")
         if isinstance(base, str) and attr in ("lower", "upper", "strip", "startswith", "endswith", "split", "splitlines", "find", "isdigit") and all(not is_sym(a) for a in args):
             return [(st, getattr(base, attr)(*args))]
+        if isinstance(base, SStr):
+            e_ = base.e
+            if attr == "find" and 1 <= len(args) <= 2 and isinstance(args[0], str):
+                start = to_int(args[1]) if len(args) == 2 else z3.IntVal(0)
+                r = fresh("sfind", z3.IntSort()); n_ = z3.Length(e_)
+                # str.find(sub, start): start is clamped to [0, len]; the result is -1 or an index >= start where sub occurs
+                st.pc.append(r == z3.IndexOf(e_, z3.StringVal(args[0]), z3.If(start < 0, z3.If(start + n_ < 0, 0, start + n_), start)))
+                st.pc.append(z3.Or(r == -1, z3.And(r >= 0, r >= start, r + len(args[0]) <= n_)))
+                return [(st, SInt(r))]
+            if attr in ("strip", "lower", "upper") and not args:
+                r = fresh("s" + attr, z3.StringSort())
+                st.pc.append(z3.Length(r) <= z3.Length(e_) if attr == "strip" else z3.Length(r) == z3.Length(e_))
+                return [(st, SStr(r))]
+            if attr in ("splitlines", "split") and len(args) <= 1:
+                n_ = fresh("nparts", z3.IntSort()); st.pc.append(n_ >= (0 if attr == "splitlines" else 1))
+                return [(st, SStrList(fresh("parts", STR_ARR), n_))]
         if isinstance(base, list) and attr == "clear" and not args:
             base.clear(); return [(st, None)]
         h = s.prelude_methods.get(attr)
@@ -924,6 +956,10 @@ class Engine:
         for st0, it in s.eval(gen.iter, st, ctx):
             if isinstance(it, Raised): outs.append((st0, it)); continue
             if isinstance(it, dict): it = list(it)
+            if isinstance(it, SStrList) and isinstance(e.elt, ast.Name) and isinstance(gen.target, ast.Name) and e.elt.id == gen.target.id:
+                # [x for x in <strings> if cond(x)]: some sub-list of the strings (which ones is not tracked)
+                n2 = fresh("sub_n", z3.IntSort()); st0.pc += [n2 >= 0, n2 <= it.n]
+                outs.append((st0, SStrList(fresh("sub", STR_ARR), n2))); continue
             if isinstance(it, SList) and not gen.ifs:
                 # generator over a symbolic-length list: kept lazy, element expression evaluated once at a bound index (used by any()/all())
                 kvar = fresh("k_gen", z3.IntSort()); saved_l = dict(st0.locals)
@@ -1200,7 +1236,7 @@ class Engine:
                 outs += s.unroll(stmt, st1, list(it), ctx)
             elif isinstance(it, tuple) and it[0] == "range":
                 outs += s.loop_inv(stmt, st1, ctx, range_args=it[1])
-            elif isinstance(it, (SBytes, SList)):
+            elif isinstance(it, (SBytes, SList, SStrList)):
                 outs += s.loop_inv(stmt, st1, ctx, seq=it)
             else: raise Unsupported(f"for iterable {it!r} line {stmt.lineno}")
         return outs
@@ -1310,7 +1346,7 @@ class Engine:
             se = st_h.fork(); se.pc.append(z3.Not(guard))
             if seq is not None:
                 k = to_int(sb.locals[ivar])
-                s.assign(stmt.target, SBV(seq.at(k)) if isinstance(seq, SBytes) else SInt(z3.Select(seq.arr, k)), sb, ctx)
+                s.assign(stmt.target, SBV(seq.at(k)) if isinstance(seq, SBytes) else SStr(z3.Select(seq.arr, k)) if isinstance(seq, SStrList) else SInt(z3.Select(seq.arr, k)), sb, ctx)
             bodies = [sb]; exits = [se]
         else:
             bodies, exits = [], []
@@ -1350,6 +1386,9 @@ class Engine:
         if isinstance(cur, SList):
             n = fresh(name + "_n", z3.IntSort()); s.len_vars.append(n); return SList(fresh(name, INT_ARR), n)
         if isinstance(cur, (list, GhostList)): return GhostList(name)
+        if isinstance(cur, SStrList):
+            n = fresh(name + "_n", z3.IntSort()); return SStrList(fresh(name, STR_ARR), n)
+        if isinstance(cur, tuple): return tuple(s.havoc_like(x, f"{name}_{i}") for i, x in enumerate(cur))
         raise Unsupported(f"havoc {name}: {cur!r}")
 
     # ------------------------------------------------------------------ calls
